@@ -14,8 +14,14 @@ MANIFEST = dict(
           "dimension (the declared unit, else the product of powers of its base units as units, recomputed by the harness from "
           "what it passed to UnitSystem), keep the dimension (or its CGS/SI counterpart), keep the SI magnitude for ALL values "
           "and scales, invert, agree with each other, are idempotent and memoise consistently over every named dimension and over "
-          "orders/histories of requests inside one path; any model is replayed on plain unyt. Bounded: unit names, coefficients, "
-          "compound shapes and request orders are enumerated; rounding is outside."),
+          "orders/histories of requests inside one path; the same for starting units that carry a number themselves (the number "
+          "times the system's own unit / times another unit / the own unit stripped of its number; written as a string, built as "
+          "a Unit object, left behind by simplify()), for what one system hands out converted on into another system (built-in "
+          "pairs, user-defined pairs on one registry, mixed), and for quantities made after a row of the registry was edited "
+          "(modify by number / by quantity, remove + add; the system's length / mass / time / override symbol or the starting "
+          "unit's; new scale a z3 real; system bound to the registry or a built-in one used from an edited registry) with "
+          "conversions of the same dimensions before the edit; any model is replayed on plain unyt. Bounded: unit names, "
+          "coefficients, compound shapes, request orders, system pairs and edit kinds are enumerated; rounding is outside."),
     design="DESIGN.md section 4 C10",
     technique="symbolic execution of the real Python code over z3 real terms; SMT (QF_NRA) obligations per path; counterexample replay")
 EXPLANATION = (
@@ -35,7 +41,17 @@ EXPLANATION = (
     "in_base agree for every named dimension of unyt.dimensions in three request orders inside ONE path, and again at the end "
     "of the path; sequences of conversions of different dimensions into one system in one path (each repeated at the end); "
     "raising is UnitsNotReducible / MissingMKSCurrent and only for a system without MKS current; ill-defined systems "
-    "(incl. coefficient-carrying base units of the wrong dimension) are rejected and not registered."
+    "(incl. coefficient-carrying base units of the wrong dimension) are rejected and not registered. "
+    "Starting units with a number in front (family coef): for every dimension a system declares a unit for and four "
+    "synthesised ones the full battery runs on c*(own unit), c*(another unit of the dimension) and, where the own unit "
+    "carries a number, its bare symbol part - the axis is the RELATION of the starting unit to the system's unit (equal / "
+    "equal up to a number / unrelated), which every 'already in the system' shortcut in in_base, convert_to_base and "
+    "get_base_equivalent decides on. From system to system (family chain): in_base(S1) then the battery into S2 with the "
+    "harness' own figure for the size of S1's unit, and via-S1 == directly. Registry edits (family regedit): conversions and "
+    "S[dimension] before, then modify / modify by quantity / remove+add of one row with a symbolic new scale, then the same "
+    "obligations on quantities made after the edit, the oracle reading the harness' OWN copy of the rows (updated by the "
+    "harness, not read back from the registry): a unit object, factor or units_map entry kept from before the edit shows up as "
+    "a term in the old scale symbol."
 )
 BOUNDS = {
     "quick": ("systems: 7 built-in + 8 user-defined (U1: 3 base units; U2: all optional base units + energy override; U3: no MKS current, "
@@ -55,11 +71,22 @@ BOUNDS = {
               "for Q2 and 1 (rotating) for the others; 8 conversion histories of 2-3 dimensions (each repeated at the end of the path) "
               "x U3, Q1-Q4, cgs, imperial; system named by name / object / registry default / 'code'; 22 ill-defined "
               "constructions (table and registry, atomic/prefixed/coefficient as string, quantity, Unit/compound) followed by a valid one; "
-              "scalar payloads"),
+              "scalar payloads. Numbers in front of the starting unit: 5 coefficients (100, 0.5, 3.0, 1e-3, 7; one per system and form, "
+              "rotating) x 15 systems x every declared dimension + velocity, area, density, momentum x relation (c*own, c*other, own "
+              "stripped of its number) x form (unit string: all systems; Unit object from the expression: built-in, U1, Q1; left behind by "
+              "simplify() of own**2/other, other**2/own, own**3/other**2: built-in systems, atomic own units). System to system: all 42 "
+              "ordered pairs of built-in systems, 9 pairs of user-defined systems (U1-U3, Q1-Q4 on one registry), 4 mixed pairs x 3 of "
+              "12 starting units. Registry edits: 8 user-defined systems bound to the registry + cgs, imperial, galactic used from a "
+              "registry of the caller's x edited symbol (the system's length / mass / time symbol, the symbol of a declared derived unit, "
+              "the starting unit's symbol) x 1 of 6 (kind: modify by number, by quantity, remove+add; x whether all 6 or 3 of the 6 "
+              "dimensions were converted before the edit), 6 starting units each, the full battery on one of them"),
     "thorough": ("as quick, plus: every table symbol x 4 U-systems and every table symbol with a symbolic-scale row x 7 built-in "
                  "systems (one case each); 1 symbol per dimension x 4 Q-systems; 2-element payloads for the table sweep; 24-symbol "
                  "compound pool, 6 rotations; 32 prefixed units; 75 harness-defined starting units x all 15 systems (Q-systems without "
-                 "the atomic SI<->Gaussian units); named-dimension sweep in all 3 orders x 15 systems; histories x all 15 systems"),
+                 "the atomic SI<->Gaussian units); named-dimension sweep in all 3 orders x 15 systems; histories x all 15 systems; "
+                 "numbers in front: 3 coefficients as string + 2 as Unit object x all 15 systems; system to system: all 42 ordered pairs "
+                 "of U1-U3/Q1-Q4, 8 mixed pairs, 6 starting units; registry edits: all 7 built-in systems, every (edit kind x before-set) "
+                 "combination for every edited symbol"),
 }
 OUTSIDE = ("IEEE rounding/overflow (A1) - compounds whose factorisation into a system's base units leaves the double range in a partial "
            "product (t_pl**8 ...) are skipped; integer/complex payloads (C17); the numeric correctness of table rows themselves (C02: the "
@@ -68,7 +95,15 @@ OUTSIDE = ("IEEE rounding/overflow (A1) - compounds whose factorisation into a s
            "system (S[dim] = ...) AFTER derived dimensions were memoised; symbolic coefficients of base units (sympy expressions "
            "cannot hold z3 terms: coefficients are enumerated, the scales they multiply are symbolic); atomic SI<->Gaussian units "
            "against the coefficient-carrying Q-systems (that route ignores the system's units altogether: known finding, exercised "
-           "on U1-U3/code and the built-in systems); base units with an offset (degC as temperature unit); concurrent use")
+           "on U1-U3/code and the built-in systems); base units with an offset (degC as temperature unit); concurrent use; "
+           "a number in front of a unit that has an offset (7*degC: unyt itself treats it as 7 K steps without the offset); "
+           "symbolic numbers in front of starting units (enumerated, see above); quantities made BEFORE a registry edit and "
+           "converted after it (their unit objects are snapshots of the old rows - C12/C13); edits that change the dimension of "
+           "a symbol a system uses, or remove it for good; simplify()-made numbers on user-defined systems (cancelling two units "
+           "of one dimension needs concrete scales); chains between planck / geometrized and user-defined systems (the products of "
+           "their 1e-35 .. 1e-44 table scales with symbolic scales were not decided by z3 inside the budget: 1 path > 25 min); "
+           "chains and registry edits are walked for the listed pairs / symbols / 6 "
+           "starting units, not for the whole unit table")
 
 NAMES = ["xl", "xm", "xt", "xtemp", "xang", "xcur", "xen", "xv", "xa", "xb", "xc", "xlum", "xlog", "xpr"]
 CODE_NAMES = ["code_length", "code_mass", "code_time", "code_temperature", "code_velocity", "code_magnetic", "code_pressure", "code_density"]
@@ -253,19 +288,22 @@ def is_em_atom(ustr, lut):
     return False
 
 
-def battery(ctx, tag, q, xs, S, sysargs, reg, base_keys, src, decl=None):
+def battery(ctx, tag, q, xs, S, sysargs, reg, base_keys, src, decl=None, lut=None):
     """all C10 obligations for one quantity q (payload elements xs) and one system S.
     sysargs: list of (label, argument) ways of naming S to in_base; the first one is the reference.
     src = (scale, offset, dims) of q's unit from the harness' own knowledge.
     decl = the system's declarations (dimension -> expression: base units and overrides) as the harness knows them from
     what it passed to UnitSystem(...) / __setitem__; default: the system's units_map on entry (built-in systems: the map
-    as declared in unit_systems.py, restored by reset_builtin)."""
+    as declared in unit_systems.py, restored by reset_builtin).
+    lut = the rows the oracle reads (default: the registry's table; the registry-edit family passes the harness' own copy of
+    the rows, updated by the harness itself when it edits the registry)."""
     mods = ctx.mods
     unyt = mods["unyt"]
     D = unyt.dimensions
     NR = unyt.exceptions.UnitsNotReducible
     s_q, o_q, d_q = src
-    lut = reg.lut
+    if lut is None:
+        lut = reg.lut
     declared = declared_atoms(S)
     if decl is None:
         decl = dict(S.units_map)
@@ -943,11 +981,13 @@ HISTORIES = [("km/s", "cm**2", "erg"), ("erg", "km/s", "erg"), ("Hz", "hr", "Hz"
              ("Pa", "km/s", "g/cm**3"), ("cm**2", "cm"), ("cm**3", "cm**2", "cm**-1")]
 
 
-def light_step(ctx, tag, q, x, S, arg, reg, keys, src, decl):
-    """the core obligations of one conversion (no twins): own unit, value, conversion back"""
+def light_step(ctx, tag, q, x, S, arg, reg, keys, src, decl, lut=None):
+    """the core obligations of one conversion (no twins): own unit, value, conversion back. -> the result (or None)"""
     NR = ctx.mods["unyt"].exceptions.UnitsNotReducible
     s_q, o_q, d_q = src
-    want = system_unit(decl, d_q, reg.lut, keys)
+    if lut is None:
+        lut = reg.lut
+    want = system_unit(decl, d_q, lut, keys)
     r = call(q.in_base, arg)
     if want is None:
         ctx.require(f"{tag}|raises UnitsNotReducible (no MKS current)", r[0] == "raise" and isinstance(r[1], NR))
@@ -964,8 +1004,9 @@ def light_step(ctx, tag, q, x, S, arg, reg, keys, src, decl):
     ctx.require(f"{tag}|unit is the system's own unit (scale)", close(r[1].units.base_value, w_s), **info)
     ctx.require(f"{tag}|unit is the system's own unit (expression)", same_expr(r[1].units.expr, w_expr), **info)
     ctx.require(f"{tag}|stays inside the system", atoms_of(r[1].units.expr) <= declared_atoms(S), **info)
-    foreign = foreign_entries(S, decl, reg.lut, keys)
+    foreign = foreign_entries(S, decl, lut, keys)
     ctx.require(f"{tag}|units_map entries are the system's own units", not foreign, bad=foreign[:4])
+    return r[1]
 
 
 def make_history_case(kind, system, idx, seq):
@@ -997,6 +1038,296 @@ def make_history_case(kind, system, idx, seq):
             reset_builtin(mods)
     return Case(f"C10/history/{system}/h{idx}", h, bounds="symbolic: values, base-unit scales; discrete: the sequence of conversions",
                 budget_s=600, max_paths=3000, weight=10)
+
+
+# ----------------------------------------------------------------------------- starting units that carry a number
+
+# the coefficients put in front of a starting unit (sympy expressions cannot hold z3 terms: enumerated; what they multiply -
+# the value, and for user-defined systems every scale - is symbolic). An integer, a float < 1, a float that prints like an
+# integer, a power of ten as simplify() leaves it behind
+COEFS = [("100", 100), ("0.5", 0.5), ("3.0", 3.0), ("1e-3", 0.001), ("7", 7)]
+# dimensions no system declares a unit for (the unit is synthesised from the base units), next to every declared one
+COEF_SYNTH = ["velocity", "area", "density", "momentum"]
+
+
+def user_decl(mods, variant):
+    """the harness' record of the declarations of a user-defined system, without a path (catalogue time: how many dimensions)"""
+    from symx.ctx import ConcreteCtx
+    ctx0 = ConcreteCtx(mods)
+    reg = user_registry(ctx0, variant)
+    S, name, _, decl = user_system(ctx0, variant, reg)
+    mods["US"].unit_system_registry.pop(name, None)
+    return decl
+
+
+def coef_dimensions(mods, decl):
+    """the dimensions walked by the coefficient family for one system: every dimension the system declares a unit for
+    (base units and overrides, in the order of the harness' record) and four synthesised ones"""
+    D = mods["unyt"].dimensions
+    out = [k for k in decl]
+    for n in COEF_SYNTH:
+        d = getattr(D, n)
+        if not any(same_dims(d, k) for k in out):
+            out.append(d)
+    return out
+
+
+def coef_units(mods, d, own, coef, form, reg, symbolic_rows):
+    """starting units of dimension d that carry the number `coef`, by their relation to the system's own unit `own`
+    (expression or None): the number times the own unit; the number times another unit of the dimension; and, where the own
+    unit carries a number itself (3*xl), the bare symbol part (the own unit exactly is what the idempotence obligations of
+    every battery start from).
+    form: 'parse' - the unit string "100*(m)" goes through the unit parser; 'expr' - a Unit object built from the sympy
+    expression; 'simplify' - the number is left behind by Unit.simplify() of own**2/other (table units only: cancelling needs
+    concrete scales)."""
+    import sympy
+    unyt = mods["unyt"]
+    cs, cv = coef
+    other = sweep_unit(mods, d)
+    out = []
+    if form == "simplify":
+        if own is None or not own.is_Symbol or symbolic_rows:
+            return out
+        u = unyt.Unit(str(own), registry=reg)
+        o = unyt.Unit(other, registry=reg)
+        for lab, build in (("own**2/other", lambda: (u ** 2 / o).simplify()), ("other**2/own", lambda: (o ** 2 / u).simplify()),
+                           ("own**3/other**2", lambda: (u ** 3 / o ** 2).simplify())):
+            r = call(build)
+            # (a logarithmic unit refuses powers; own == other leaves no number)
+            if r[0] == "ok" and r[1].expr.as_coeff_Mul()[0] != 1:
+                out.append((f"simplify({lab})", r[1]))
+        return out
+
+    def mk(expr_str):
+        if form == "parse":
+            return expr_str
+        return unyt.Unit(sympy.sympify(parse_locals(mods, expr_str)), registry=reg)
+
+    if own is not None:
+        out.append((f"{cs}*own", mk(f"{cs}*({own})")))
+        c0, rest = own.as_coeff_Mul()
+        if c0 != 1:
+            out.append(("own stripped of its number", mk(str(rest))))
+    out.append((f"{cs}*other", mk(f"{cs}*({other})")))
+    return out
+
+
+def parse_locals(mods, expr_str):
+    """the sympy expression of a unit string over positive symbols (the harness' own reading: names, numbers, * / ** only)"""
+    import re
+    import sympy
+    names = set(re.findall(r"[A-Za-z_][A-Za-z0-9_]*", re.sub(r"\d[\d.]*e[-+]?\d+", "0", expr_str)))
+    return sympy.sympify(expr_str, locals={n: _psym(n) for n in names})
+
+
+def make_coef_case(kind, system, form, coef, k, n):
+    """one system x the k-th of n slices of its dimensions x starting units with a number in front (see coef_units)"""
+    def h(ctx):
+        mods = ctx.mods
+        US = mods["US"]
+        reset_builtin(mods)
+        popname = None
+        try:
+            if kind == "builtin":
+                S = US.unit_system_registry[system]
+                reg, keys, decl = mods["UO"].default_unit_registry, default_keys(), dict(S.units_map)
+                sysargs = [("name", system), ("object", S)]
+            else:
+                reg = user_registry(ctx, system)
+                S, popname, sysargs, decl = user_system(ctx, system, reg)
+                keys = set(reg.lut)
+            dims = coef_dimensions(mods, decl)[k::n]
+            for d in dims:
+                if kind == "builtin":
+                    reset_builtin(mods)
+                own = system_unit(decl, d, reg.lut, keys)
+                for lab, unit in coef_units(mods, d, None if own is None else own[0], coef, form, reg if kind != "builtin" else None,
+                                            kind != "builtin"):
+                    dn = _dim_label(mods, d)
+                    tag = f"{dn if dn != 'other' else str(d)}:{lab}"
+                    x = ctx.real("x_" + tag)
+                    q = ctx.quantity(x, unit, reg if kind != "builtin" else None)
+                    s, dd = oracle_unit(q.units.expr, reg.lut, keys)
+                    if not same_dims(dd, d):
+                        raise AssertionError(f"harness: {unit} has dimensions {dd}, wanted {d}")
+                    battery(ctx, tag, q, [x], S, sysargs, reg, keys, (s, 0.0, dd), decl=decl)
+        finally:
+            if popname is not None:
+                US.unit_system_registry.pop(popname, None)
+            reset_builtin(mods)
+    return Case(f"C10/coef/{system}/{form}-{coef[0]}/{k}", h, bounds="symbolic: value, base-unit scales of user-defined systems; "
+                "discrete: the number in front of the starting unit, its relation to the system's own unit, how it got there",
+                budget_s=600, max_paths=3000, weight=12)
+
+
+# ----------------------------------------------------------------------------- from one system into another
+
+CHAIN_UNITS = ["km", "g/cm**3", "erg", "mile/hr", "Pa", "J/K", "N", "Hz", "hr", "lb", "cm**2", "rad/s"]
+USER_CHAIN = ["U1", "U2", "U3", "Q1", "Q2", "Q3", "Q4"]
+
+
+def make_chain_case(s1, s2, idx, ustrs):
+    """q -> in_base(S1) -> in_base(S2): what one system hands out is a starting unit for the next (its unit may carry a number,
+    be a declared unit of S1, share symbols with S2's units ...). Systems: built-in by name, user-defined ones on ONE registry
+    that has the rows of all of them (symbolic scales)."""
+    def h(ctx):
+        mods = ctx.mods
+        US = mods["US"]
+        reset_builtin(mods)
+        pops = []
+        try:
+            user = [s for s in (s1, s2) if s not in BUILTIN]
+            reg = user_registry(ctx, "Q1") if user else mods["UO"].default_unit_registry
+            opened = []
+            for s in (s1, s2):
+                if s in BUILTIN:
+                    S = US.unit_system_registry[s]
+                    opened.append((S, s, dict(S.units_map)))
+                else:
+                    S, name, _, decl = user_system(ctx, s, reg)
+                    pops.append(name)
+                    opened.append((S, S, decl))
+            keys = set(reg.lut) if user else default_keys()
+            (S1, a1, decl1), (S2, a2, decl2) = opened
+            for i, ustr in enumerate(ustrs):
+                if not user:
+                    reset_builtin(mods)
+                x = ctx.real(f"x_{i}")
+                q = ctx.quantity(x, ustr, reg if user else None)
+                if q.units.is_atomic:
+                    src = atomic_src(str(q.units.expr), reg.lut, keys)
+                else:
+                    sc, d = oracle_unit(q.units.expr, reg.lut, keys)
+                    src = (sc, 0.0, d)
+                r1 = light_step(ctx, f"{ustr}>first", q, x, S1, a1, reg, keys, src, decl1)
+                w1 = system_unit(decl1, src[2], reg.lut, keys)
+                if r1 is None or w1 is None:
+                    continue
+                # the second leg starts from what the first handed out; its size is the harness' own figure for S1's unit
+                v1 = payload(r1)[0]
+                battery(ctx, f"{ustr}>second", r1, [v1], S2, [("arg", a2), ("name", S2.name)], reg, keys, (w1[1], w1[2], src[2]), decl=decl2)
+                # and the direct route lands on the same reading
+                rd = call(q.in_base, a2)
+                r2 = call(r1.in_base, a2)
+                ctx.require(f"{ustr}>via the first system == directly",
+                            rd[0] == "ok" and r2[0] == "ok" and And(same_unit(rd[1].units, r2[1].units), all_close(payload(rd[1]), payload(r2[1]))))
+        finally:
+            for n in pops:
+                US.unit_system_registry.pop(n, None)
+            reset_builtin(mods)
+    return Case(f"C10/chain/{s1}>{s2}/{idx}", h, bounds="symbolic: values, base-unit scales of user-defined systems; discrete: the pair of systems, "
+                "the starting units", budget_s=600, max_paths=3000, weight=10 * len(ustrs))
+
+
+# ----------------------------------------------------------------------------- registry edits between conversions
+
+# which symbol is edited: the system's length / mass / time symbol, the symbol of a unit it declares for a derived dimension,
+# or the symbol of the starting unit (not a unit of the system)
+EDIT_TARGETS = ["length", "mass", "time", "override", "start"]
+# how: modify(sym, number) / modify(sym, quantity of the same dimension) / remove + add
+EDIT_KINDS = ["modify", "modify_q", "readd"]
+EDIT_SEQ = ["km", "km/hr", "g/cm**3", "xa", "erg", "Pa*xa"]
+OVERRIDE_OF = {"U2": "energy", "U3": "velocity", "code": "velocity", "Q4": "velocity",
+               "cgs": "energy", "mks": "energy", "imperial": "force", "galactic": "energy", "planck": "energy"}
+Q_UNIT = {"length": ("km", 1000.0), "mass": ("g", 1.0e-3), "time": ("hr", 3600.0)}
+
+
+def _row_key(name, keys):
+    if name in keys:
+        return name
+    for p in _prefix_sorted():
+        if name.startswith(p) and name[len(p):] in keys:
+            return name[len(p):]
+    raise KeyError(name)
+
+
+def make_regedit_case(variant, target, ekind, when):
+    """a user-defined system bound to a registry (registry=reg), or a built-in system (bound to no registry) used from a
+    registry of the caller's; conversions of several dimensions and S[dimension] requests; then a row of that registry is
+    edited (new scale: a fresh symbol); then quantities made AFTER the edit are converted. The oracle reads the harness' own
+    copy of the rows, which the harness updates itself.
+    when: 'used' - every dimension was converted / requested before the edit; 'fresh' - half of them only afterwards."""
+    def h(ctx):
+        mods = ctx.mods
+        US = mods["US"]
+        unyt = mods["unyt"]
+        D = unyt.dimensions
+        reset_builtin(mods)
+        popname = None
+        try:
+            reg = ctx.registry([]) if variant in BUILTIN else user_registry(ctx, variant)
+            ctx.add_row(reg, "xa", D.length, ctx.real("xa_s", pos=True), 0.0)
+            # the rows as the harness defined them (before unyt writes rows of prefixed symbols back into the table)
+            keys = set(reg.lut)
+            rows = dict(reg.lut)
+            rows0 = dict(rows)
+            if variant in BUILTIN:
+                S, sysname = US.unit_system_registry[variant], variant
+                decl = dict(S.units_map)
+            else:
+                S, popname, sysargs, decl = user_system(ctx, variant, reg)
+                sysname = popname
+            args = [S, sysname]
+
+            def convert(stage, i, ustr, full):
+                x = ctx.real(f"x_{stage}{i}")
+                q = ctx.quantity(x, ustr, reg)
+                if q.units.is_atomic:
+                    src = atomic_src(str(q.units.expr), rows, keys)
+                else:
+                    sc, d = oracle_unit(q.units.expr, rows, keys)
+                    src = (sc, 0.0, d)
+                tag = f"{stage}:{ustr}"
+                if full:
+                    battery(ctx, tag, q, [x], S, [("object", S), ("name", sysname)], reg, keys, src, decl=decl, lut=rows)
+                else:
+                    light_step(ctx, tag, q, x, S, args[i % 2], reg, keys, src, decl, lut=rows)
+                # the system's own answer for that dimension, by dimension object: in the registry the system is bound to (a
+                # built-in system is bound to none: its answer is a unit of the default registry, which nobody edited)
+                want = system_unit(decl, src[2], rows if variant not in BUILTIN else rows0, keys)
+                if want is not None:
+                    u = call(S.__getitem__, src[2])
+                    ctx.require(f"{tag}|S[dimension]: the system's own unit (rows of the registry it is bound to, as they are now)",
+                                u[0] == "ok" and And(close(u[1].base_value, want[1]), same_expr(u[1].expr, want[0])),
+                                got=str(u[1])[:80], want=str(want[0]))
+
+            seq = EDIT_SEQ
+            for i, ustr in enumerate(seq):
+                if when == "used" or i % 2 == 0:
+                    convert("before", i, ustr, False)
+            # ---- the edit
+            if target == "start":
+                sym = "xa"
+            else:
+                dname = OVERRIDE_OF[variant] if target == "override" else target
+                e = decl[getattr(D, dname)]
+                sym = _row_key(str(e.as_coeff_Mul()[1]), keys)
+            old = rows[sym]
+            v = ctx.real("v_new", pos=True)
+            if ekind == "modify":
+                r = call(reg.modify, sym, v)
+                new_scale = v
+            elif ekind == "modify_q":
+                dn = "length" if target == "start" else target
+                qu, qs = Q_UNIT[dn]
+                r = call(reg.modify, sym, ctx.quantity(v, qu, reg))
+                new_scale = v * qs
+            else:
+                r = call(reg.remove, sym)
+                if r[0] == "ok":
+                    r = call(reg.add, sym, v, old[1], prefixable=old[4])
+                new_scale = v
+            ctx.require("the registry accepts the edit", r[0] == "ok", err=repr(r[1])[:120])
+            rows[sym] = (new_scale,) + tuple(old[1:])
+            # ---- afterwards: quantities made now
+            for i, ustr in enumerate(seq):
+                convert("after", i, ustr, i == 1)
+        finally:
+            if popname is not None:
+                US.unit_system_registry.pop(popname, None)
+            reset_builtin(mods)
+    return Case(f"C10/regedit/{variant}/{target}-{ekind}-{when}", h, bounds="symbolic: values, all scales, the new scale; discrete: which "
+                "symbol is edited, how, which dimensions were converted before", budget_s=600, max_paths=3000, weight=30)
 
 
 # ----------------------------------------------------------------------------- ill-defined systems
@@ -1158,6 +1489,79 @@ def cases(tier, mods):
             out.append(make_history_case("builtin", system, i, seq))
     for label, with_reg, kw, strict in _bad_specs():
         out.append(make_bad_case(label, with_reg, kw, strict))
+    # starting units that carry a number (relation to the system's own unit x how the number got there x which number)
+    # (built-in systems: two slices of the dimensions; user-defined ones, whose paths fork on the symbolic scales: one dimension a case)
+    for i, (kind, system) in enumerate(allsys):
+        nsl = 2 if kind == "builtin" else len(coef_dimensions(mods, user_decl(mods, system)))
+        for j, form in enumerate(("parse", "expr")):
+            if quick and form == "expr" and kind != "builtin" and system not in ("U1", "Q1"):
+                continue
+            cfs = [COEFS[(i + 2 * j) % len(COEFS)]] if quick else COEFS[:3] if form == "parse" else COEFS[3:]
+            for cf in cfs:
+                for k in range(nsl):
+                    out.append(make_coef_case(kind, system, form, cf, k, nsl))
+        if kind == "builtin":
+            out.append(make_coef_case(kind, system, "simplify", ("", 1), 0, 1))
+    # what one system hands out is converted into another
+    nu = len(CHAIN_UNITS)
+    pairs = [(a, b) for a in BUILTIN for b in BUILTIN if a != b]
+    upairs = [(a, b) for a in USER_CHAIN for b in USER_CHAIN if a != b]
+    mixed = [("Q1", "cgs"), ("mks", "Q2"), ("U3", "imperial"), ("galactic", "Q3"), ("Q4", "mks"), ("cgs", "U2"), ("imperial", "Q1"), ("U1", "solar")]
+    if quick:
+        upairs = [("Q1", "U1"), ("U1", "Q1"), ("Q2", "U2"), ("U2", "Q3"), ("Q3", "U3"), ("U3", "Q4"), ("Q4", "Q1"), ("Q1", "Q3"), ("Q2", "Q1")]
+        mixed = mixed[:4]
+    # (3 starting units a case: the paths of the user-defined systems fork on the symbolic scales, and forks multiply along a case)
+    for i, (a, b) in enumerate(pairs + upairs + mixed):
+        us = [CHAIN_UNITS[(i * 5 + j * 7) % nu] for j in range(3 if quick else 6)]
+        for k in range(0, len(us), 3):
+            out.append(make_chain_case(a, b, k // 3, us[k:k + 3]))
+    # registry edits between conversions into a system bound to that registry
+    n = 0
+    for variant in ("U1", "U2", "U3", "code") + tuple(QVARIANTS) + (("cgs", "imperial", "galactic") if quick else tuple(BUILTIN)):
+        for target in EDIT_TARGETS:
+            if target == "override" and variant not in OVERRIDE_OF:
+                continue
+            combos = [(e, w) for e in EDIT_KINDS for w in ("used", "fresh") if not (e == "modify_q" and target == "override")]
+            if quick:
+                combos = [combos[n % len(combos)]]
+                n += 1
+            for e, w in combos:
+                out.append(make_regedit_case(variant, target, e, w))
+    return out
+
+
+# families none of whose cases shows a recorded defect of unyt (no atomic SI<->Gaussian starting units): usable as warm-ups
+WARM_CLEAN = ("coef", "chain", "history", "regedit", "compound")
+
+
+def _system_of(case_id):
+    parts = case_id.split("/")
+    return parts[2].split(">")[0] if len(parts) > 2 else ""  # (a chain is filed under the system it starts in)
+
+
+def WARM_PARTNERS(cases):
+    """history axis across cases (symx/warm.py): the recorded SI<->Gaussian finding has a case pattern that spans the whole
+    harness ('C10/*::em:*V|si kept'), which bars every case from the runner's default sample of warm-ups; the pairs are given here
+    instead. Every k-th case of the catalogue (all families) runs after a case of a family that shows no recorded defect - the
+    same system where there is one (another slice of its dimensions, a chain starting in it, a history, a registry edit), so that
+    whatever an earlier conversion into that system leaves behind in the library (unit caches, memoised factors, rows written
+    back into a table, registered systems) is there when the case runs. At most about 150 pairs (all in the thorough tier, a
+    seeded sample of 45 in the quick tier)."""
+    clean = [c.id for c in cases if c.id.split("/")[1] in WARM_CLEAN]
+    by_sys = {}
+    for cid in clean:
+        by_sys.setdefault(_system_of(cid), []).append(cid)
+    stride = max(7, len(cases) // 150)
+    out = {}
+    for i, c in enumerate(cases):
+        if i % stride:
+            continue
+        pool = by_sys.get(_system_of(c.id)) or clean
+        w = pool[(i // stride) % len(pool)]
+        if w == c.id:
+            w = pool[(i // stride + 1) % len(pool)]
+        if w != c.id:
+            out[c.id] = [w]
     return out
 
 
